@@ -8,6 +8,7 @@ Prints one JSON line: {"violation": bool, "cases": n, "witness": ..., "what": ..
 import datetime as real_datetime
 import itertools
 import json
+import os
 import sys
 import types
 
@@ -135,10 +136,63 @@ def memstr(limit):
     return {"violation": False, "cases": cases}
 
 
+E2E_CHILD = r'''
+import datetime, json, os, sys, tempfile, time, warnings
+warnings.simplefilter("ignore")
+from joblib import Memory
+root = tempfile.mkdtemp(prefix="pyvc_c18e_")
+mem = Memory(root, verbose=0)
+def f(i):
+    return ("v", i, "x" * (100 * (i + 1)))
+cf = mem.cache(f)
+ages_h = json.loads(sys.argv[1])            # hours since the last access of entry i
+limits = json.loads(sys.argv[2])
+for i in range(len(ages_h)):
+    cf(i)
+now = time.time()
+func_dir = os.path.join(root, "joblib", cf.func_id)
+def entry_dir(i):
+    return os.path.join(func_dir, cf._get_args_id(i))
+for i, h in enumerate(ages_h):
+    for name in os.listdir(entry_dir(i)):
+        os.utime(os.path.join(entry_dir(i), name), (now - 3600.0 * h, now - 3600.0 * h))
+kw = {}
+if limits.get("age_h") is not None:
+    kw["age_limit"] = datetime.timedelta(hours=limits["age_h"])
+if limits.get("items") is not None:
+    kw["items_limit"] = limits["items"]
+mem.reduce_size(**kw)
+print(json.dumps([i for i in range(len(ages_h)) if os.path.isdir(entry_dir(i))]))
+'''
+
+
+def e2e():
+    """Real files, real access times, the real inventory (FileSystemStoreBackend.get_items) and Memory.reduce_size, in fresh processes under
+    several time zones: the age limit is about elapsed time, whatever the zone of the machine; the LRU order is the order of the access times."""
+    import subprocess
+    cases = 0
+    ages = [5.0, 3.0, 2.0, 0.5, 0.17, 26.0]
+    scenarios = [({"age_h": 1}, [3, 4]), ({"age_h": 4}, [1, 2, 3, 4]), ({"age_h": 30}, [0, 1, 2, 3, 4, 5]), ({"items": 2}, [3, 4]), ({"items": 4, "age_h": 2.5}, [2, 3, 4])]
+    for tz in ("UTC", "EST5", "JST-9", "Europe/Paris"):
+        for limits, survivors in scenarios:
+            cases += 1
+            env = dict(os.environ, TZ=tz)
+            pr = subprocess.run([sys.executable, "-c", E2E_CHILD, json.dumps(ages), json.dumps(limits)], capture_output=True, text=True, timeout=120, env=env)
+            if pr.returncode != 0:
+                return {"violation": True, "cases": cases, "what": "reduce_size(%r) under TZ=%s raised: %s" % (limits, tz, pr.stderr.strip().splitlines()[-1:] or pr.stderr[-300:]), "witness": {"TZ": tz, "limits": limits}}
+            got = json.loads(pr.stdout.strip().splitlines()[-1])
+            if got != survivors:
+                return {"violation": True, "cases": cases, "what": "entries last used %r hours ago, reduce_size(%r) under TZ=%s kept %r, the limits keep exactly %r" % (ages, limits, tz, got, survivors),
+                        "witness": {"TZ": tz, "limits": limits, "hours_since_last_access": ages}}
+    return {"violation": False, "cases": cases}
+
+
 if __name__ == "__main__":
     cmd = sys.argv[1]
     if cmd == "search":
         out = search(int(sys.argv[2]))
+    elif cmd == "e2e":
+        out = e2e()
     else:
         out = memstr(int(sys.argv[2]))
     print(json.dumps(out))
